@@ -137,7 +137,7 @@ class Check:
             "known_findings_matched": [k for k, _ in known_hits],
             "tree_hash": facts.tree_hash(),
             "repo": facts.REPO,
-            "exhaustive": True,
+            "exhaustive": bool(getattr(self, "exhaustive", True)),
             "notes": self.notes,
         }
         if extra_cov:
